@@ -923,10 +923,10 @@ class C07(ParseProp):
                   "extension function, and all its index/slice/singular-query integers are within the I-JSON range (C07_typing, C07_int_range: "
                   "induction over Build's recursion). The grammar is translated to Coq on every run; single-token edits of valid sentences and "
                   "arbitrary strings are run through the crate, its extracted model and the independent RFC recogniser (Concrete.v). "
-                  "Rejection is proved for 28 classes of strings, each for all its members: no root, bad continuation, blank space before or "
+                  "Rejection is proved for 31 classes of strings, each for all its members: no root, bad continuation, blank space before or "
                   "after the query, leading zeros, -0, +, fraction in an index, an index outside the I-JSON range (every such integer), "
-                  "empty brackets/filter, unquoted name, bad escape, control character, half operators, missing operand, upper-case literals "
-                  "and more (RejectFacts/RejectMore/RejectRange: the grammar of the run executed on a fixed prefix with the rest symbolic). "
+                  "empty brackets/filter, unquoted name, bad escape, control character, half operators, missing operand, upper-case literals, "
+                  "blank space after . / .. / a function name (accepted by the grammar, refused by parser.rs) and more (RejectFacts/RejectMore/RejectRange/RejectBlank: the grammar of the run executed on a fixed prefix with the rest symbolic). "
                   "The whole-language rejection theorem is NOT proved (partial).")
     level_note = "whole-language inversion not proved (partial); the reference recogniser is a human transcription of the ABNF; extension-function calls are outside the property"
     rule = ("every case is a single-token edit (delete/insert/substitute/swap/duplicate a character, blank space anywhere, digit edits around 0, "
@@ -1261,6 +1261,11 @@ class C09(PropCheck):
             # a path reported by a query must resolve to the node it was reported for
             if I[0] == "OK" and I[1] == c.meta["expect_loc"]:
                 return Verdict("ok", nontrivial=True, key=key)
+            if oI == oM and not expect_loc_plain(c.meta["expect_loc"]):
+                # the member's own name contains ' \ or a control character (e.g. a decoy member literally named 'd'):
+                # the reported path spells it raw, so it denotes another member or nothing -- the listed class D6
+                self.count("known_D6")
+                return Verdict("known", cls="D6-raw-paths", detail="reported path %r does not resolve back (raw member name)" % c.meta["path"], nontrivial=True, key=key)
             if oI == oM and not all(ord(ch) >= 32 and ch not in "\\" for ch in c.meta["path"].replace("['", "").replace("']", "")) or "\"" in c.meta["path"] or c.meta["path"].count("'") % 2 == 1:
                 self.count("known_D6")
                 return Verdict("known", cls="D6-raw-paths", detail="reported path %r does not resolve back" % c.meta["path"], nontrivial=True, key=key)
@@ -1538,6 +1543,16 @@ class C08(ParseProp):
                 return Verdict("stale", detail="parser model disagrees: %r vs %r" % (M, I), nontrivial=I[0] == "OK", key=key)
             return Verdict("ok", nontrivial=I[0] == "OK", key=key)
         return Verdict("violation", detail="%s on query %r (allowed: Ok, or Err from parsing only; never a panic, abort, hang or evaluation error)" % (I[0], c.meta.get("query", c.meta)), nontrivial=True, key=key)
+
+
+def expect_loc_plain(l):
+    """location string of the harness ($/i:3/n:39.100.39): no member name contains ' \\ or a control character"""
+    for seg in l.split("/")[1:]:
+        if seg.startswith("n:"):
+            cps = [int(x) for x in seg[2:].split(".") if x != ""]
+            if any(cp < 32 or cp in (39, 92) for cp in cps):
+                return False
+    return True
 
 
 def loc_plain_text(path):
